@@ -126,9 +126,11 @@ def mutate_attr(
     if not (inplace or metadata and metadata.do_not_copy):
         obj = copy.deepcopy(obj)
 
-    # Perform actual mutation
+    # Perform actual mutation (if not inplace, `obj` is our own copy; the write
+    # may come back through `__setattr__`, e.g. from a descriptor's setter)
     try:
-        getattr(obj.__setattr__, "__raw__", setattr)(obj, attr, value)
+        with _unfrozen(obj, enabled=not inplace):
+            getattr(obj.__setattr__, "__raw__", setattr)(obj, attr, value)
     except AttributeError as e:
         if (
             e.args
